@@ -1105,6 +1105,91 @@ def base_model(wntr, rng, d):
     return wn, clash
 
 
+# ------------------------------------------------------------------------------------------------ directed cases (API-built models outside the spec format)
+
+
+def _directed_base(wntr):
+    wn = wntr.network.WaterNetworkModel()
+    wn.add_pattern("p1", [1.0, 2.0])
+    wn.add_junction("J1", base_demand=0.01, elevation=5.0)
+    wn.add_junction("J2", base_demand=0.01)
+    wn.add_tank("T0", elevation=10, init_level=3, min_level=1, max_level=5, diameter=10)
+    wn.add_reservoir("R1", base_head=50)
+    wn.add_pipe("P1", "J1", "J2")
+    wn.add_pipe("P2", "J2", "T0")
+    wn.add_pipe("P3", "R1", "J1")
+    wn.add_valve("V1", "J1", "J2", valve_type="PRV", initial_setting=20.0)
+    return wn
+
+
+def directed_cases(wntr):
+    """(stable key, what, builder): models every one of which the API builds and to_dict writes; a case that does not come back is
+    reported under ITS key (a known finding until repaired) -- they are not part of the random stream"""
+    C = wntr.network.controls
+
+    def ctl(cond_of, rule=False):
+        def build():
+            wn = _directed_base(wntr)
+            act = C.ControlAction(wn.get_link("P1"), "status", 0)
+            cond = cond_of(wn)
+            wn.add_control("c", C.Rule(cond, [act], name="c") if rule else C.Control(cond, act))
+            return wn
+        return build
+
+    def with_(f):
+        def build():
+            wn = _directed_base(wntr)
+            f(wn)
+            return wn
+        return build
+
+    def m_default_pattern(wn):
+        wn.options.hydraulic.pattern = "p1"
+        wn.get_node("J1").demand_timeseries_list[0].pattern_name = None
+
+    def m_leak_rules(wn):
+        wn.get_node("J1").add_leak(wn, 0.01, 0.75, 3600, 7200)
+        wn.convert_controls_to_rules()
+
+    def m_mix(wn):
+        wn.get_node("T0").mixing_model = "2COMP"
+        wn.get_node("T0").mixing_fraction = 0.0
+
+    def m_opts(wn):
+        wn.options.report.nodes = ["J1", "J2"]
+        wn.options.user.tags = ["ab", "cd"]
+
+    return [
+        ("condition-no-text-form-SimTimeCondition-repeat", "a daily repeating time control (SimTimeCondition(repeat=True)) is written '% 86400.0 SYSTEM TIME IS ...', which from_dict cannot read",
+         ctl(lambda wn: C.SimTimeCondition(wn, "=", 3600, repeat=True)), None),
+        ("condition-no-text-form-SimTimeCondition-repeat", "the same in a Rule", ctl(lambda wn: C.SimTimeCondition(wn, "=", 3600, repeat=True), rule=True), None),
+        ("condition-no-text-form-SimTimeCondition-first_time", "SimTimeCondition(first_time=7200) is written '(sim_time - 7200) SYSTEM TIME IS ...'",
+         ctl(lambda wn: C.SimTimeCondition(wn, "=", 3600, first_time=7200)), None),
+        ("condition-no-text-form-TimeOfDayCondition-repeat-first_day", "TimeOfDayCondition(repeat=False) is written '(  && clock_day == 0 )' (the clock time itself is lost by __str__)",
+         ctl(lambda wn: C.TimeOfDayCondition(wn, "=", 3600, repeat=False)), None),
+        ("condition-no-text-form-TimeOfDayCondition-repeat-first_day", "TimeOfDayCondition(first_day=2) is written '(  && clock_day >= 2 )'",
+         ctl(lambda wn: C.TimeOfDayCondition(wn, "=", 3600, first_day=2)), None),
+        ("condition-no-text-form-RelativeCondition", "a RelativeCondition is written \"Tank('T0').head > Junction('J1').head\", which no reader knows",
+         ctl(lambda wn: C.RelativeCondition(wn.get_node("T0"), "head", ">", wn.get_node("J1"), "head")), None),
+        ("condition-no-text-form-RelativeCondition", "the same in a Rule", ctl(lambda wn: C.RelativeCondition(wn.get_node("T0"), "head", ">", wn.get_node("J1"), "head"), rule=True), None),
+        ("simple-control-compound-condition-truncated", "an AND / OR condition inside a simple Control: from_dict silently keeps the first clause only",
+         ctl(lambda wn: C.AndCondition(C.ValueCondition(wn.get_node("T0"), "level", ">", 2.0), C.SimTimeCondition(wn, ">", 3600))), None),
+        ("from_dict-Pattern-wrap", "a Pattern with wrap=False (fire-flow pattern) comes back wrapping", with_(lambda wn: wn.get_node("J1").add_fire_fighting_demand(wn, 0.05, 3600, 7200)), None),
+        ("control-action-integer-value-text", "ControlAction(valve, 'setting', 25) is written 'SETTING IS 25' and comes back as 'SETTING IS 25.0'",
+         with_(lambda wn: wn.add_control("c", C.Control(C.SimTimeCondition(wn, "=", 3600), C.ControlAction(wn.get_link("V1"), "setting", 25)))), None),
+        ("control-action-integer-value-text", "the same in a Rule",
+         with_(lambda wn: wn.add_control("r", C.Rule(C.SimTimeCondition(wn, "=", 3600), [C.ControlAction(wn.get_link("V1"), "setting", 25)], name="r"))), None),
+        ("from_dict-Junction-constant-demand-despite-default-pattern", "a demand whose pattern is None (constant) in a model with a default pattern comes back with the default pattern "
+         "(add_junction / add_demand read None as 'the default'; the dictionary cannot say 'no pattern')", with_(m_default_pattern), None),
+        ("from_dict-rule-with-node-action", "leak controls converted to rules (convert_controls_to_rules): from_dict looks the JUNCTION of 'JUNCTION J1 LEAK_STATUS IS True' up as a link",
+         with_(m_leak_rules), None),
+        ("from_dict-Tank-mixing_fraction-zero", "a tank mixing_fraction of 0.0 comes back as None (truthiness guard)", with_(m_mix), None),
+        ("to_dict-options-value-mangled", "to_dict writes a list of two-character strings (report.nodes = ['J1', 'J2'], user lists) as a one-entry dictionary (dict(v) in the options iterator)",
+         with_(m_opts), lambda d0: None if (d0["options"]["report"]["nodes"] == ["J1", "J2"] and d0["options"]["user"].get("tags") == ["ab", "cd"]) else
+         "options.report.nodes = ['J1', 'J2'] is written as %r, options.user.tags = ['ab', 'cd'] as %r" % (d0["options"]["report"]["nodes"], d0["options"]["user"].get("tags"))),
+    ]
+
+
 # ------------------------------------------------------------------------------------------------ the check
 
 
@@ -1394,6 +1479,26 @@ class C13(Check):
                 os.rmdir(tmpdir)
             except OSError:
                 pass
+        # ---- directed cases: each under its own stable key
+        for key, what, build, faithful in directed_cases(wntr):
+            ctx.count("directed:" + key)
+            ctx.case(("directed", key, what), True)
+            try:
+                wn = build()
+                d0 = wntr.network.to_dict(wn)
+                dn = normalise(d0, None)
+                msg = faithful(G.jsonify(d0)) if faithful else None
+                if msg is None:
+                    d2 = wntr.network.to_dict(wntr.network.from_dict(json.loads(json.dumps(d0))))
+                    diffs = compare({k: v for k, v in dn.items()}, d2)
+                    if diffs:
+                        cls, pth, k2, old_, new_ = diffs[0]
+                        msg = "dictionary of the re-created model differs at %s: %r -> %r" % (pth, old_, new_)
+            except Exception as e:
+                msg = "raises %s: %s" % (type(e).__name__, str(e)[:100])
+            ctx.count("directed outcome:" + ("round-trips" if msg is None else "fails"))
+            if msg is not None:
+                failures.append(Failure(key, "%s -- %s" % (what, msg), {"case": "directed:" + key, "directed": key, "observed": msg, "expected": "to_dict(from_dict(d)) == d"}))
         # ---- correspondence with the Lean model
         if lines:
             out = vlib.lean_run("Drivers/SchemaDriver.lean", "\n".join(lines) + "\n")
@@ -1536,6 +1641,24 @@ class C13(Check):
         r = json.load(open(path if os.path.isabs(path) else os.path.join(vlib.VERIF, path)))
         rp = r.get("replay", {})
         print(json.dumps({k: v for k, v in r.items() if k != "replay"}, indent=1)[:2000])
+        if rp.get("directed"):
+            hit = []
+            for key, what, build, faithful in directed_cases(wntr):
+                if key != rp["directed"]:
+                    continue
+                try:
+                    d0 = wntr.network.to_dict(build())
+                    bad = faithful(G.jsonify(d0)) if faithful else None
+                    if bad is None:
+                        d2 = wntr.network.to_dict(wntr.network.from_dict(json.loads(json.dumps(d0))))
+                        if compare(normalise(d0, None), d2):
+                            bad = "differs"
+                except Exception as e:
+                    bad = "raises %s" % type(e).__name__
+                if bad:
+                    hit.append("%s: %s" % (what, bad))
+            print("replay: %s" % ("REPRODUCED " + hit[0] if hit else "not reproduced on the current tree"))
+            return 1 if hit else 0
         sp = rp.get("spec")
         wn = G.realise(wntr, sp) if sp else wntr.network.read_inpfile(rp["inp"])
         if sp:
